@@ -1030,3 +1030,31 @@ package readline
 //@   assume_nopanic as menuComplete
 //@   requires fullok(rl)
 //@   at_call Engine).Select [candidates-are-for-this-word] old(completion.isactive(rl.completer)) || completion.gencount() > old(completion.gencount())
+
+// sixth batch (sweep): commands that verify unannotated under the standing invariant and the two named hypotheses
+//@ func (*Shell).endOfFile
+//@   props C01
+//@   terminates
+//@   requires fullok(rl) && histready(rl) && callerok(rl)
+//@ func (*Shell).insertComment
+//@   props C01
+//@   terminates
+//@   requires fullok(rl) && histready(rl) && callerok(rl)
+//@ func (*Shell).viEOFMaybe
+//@   props C01
+//@   terminates
+//@   requires fullok(rl) && histready(rl) && callerok(rl)
+//@ func (*Shell).viEditAndExecuteCommand
+//@   props C01
+//@   terminates
+//@   requires fullok(rl) && histready(rl) && callerok(rl)
+
+// abort (C-g, C-c). C14: "interrupting an active completion menu only cancels the menu ... and the Readline call
+// continues"; C08 / C11: the interrupt exit returns an error and records nothing. IsInserting / AutoCompleting are
+// loop-free and inlined, so the path condition of the Accept call carries their results on the entry state.
+//@ func (*Shell).abort
+//@   props C14 C08 C11
+//@   assume_nopanic the cancellation of the menu / of the searches and the display are outside this contract: only when and how the call is ended is claimed
+//@   requires fullok(rl) && rl.completer.keymap == rl.Keymap
+//@   at_call Sources).Accept [menu-interrupt-does-not-end-the-call] len(old(rl.completer.selected.Value)) == 0 && !old(rl.completer.autoForce) && old(rl.Keymap.local) != "isearch"
+//@   at_call Sources).Accept [interrupt-is-an-error-and-records-nothing] !a1 && !a2 && a3 != nil
